@@ -90,16 +90,20 @@ def run(env, tier, seed, broken=None):
         for _ in range(rng.randint(2, 25)):
             r = rng.random()
             if r < 0.15:
-                parts.append('"' + ''.join(rng.choice(['a', ' ', '\n', 'ক', '/', '*']) for _ in range(rng.randint(0, 6))) + ('"' if rng.random() < 0.9 else ''))
+                parts.append('"' + ''.join(rng.choice(['a', ' ', '\n', 'ক', '/', '*', '\x00', '\t']) for _ in range(rng.randint(0, 6))) + ('"' if rng.random() < 0.9 else ''))
             elif r < 0.25:
                 parts.append('/*' + ''.join(rng.choice(['a', ' ', '\n', '*', '/', '"']) for _ in range(rng.randint(0, 8))) + ('*/' if rng.random() < 0.9 else ''))
             elif r < 0.33:
-                parts.append('//' + ''.join(rng.choice(['a', ' ', '"', '*']) for _ in range(rng.randint(0, 5))) + '\n')
+                parts.append('//' + ''.join(rng.choice(['a', ' ', '"', '*', '\x00', '\r']) for _ in range(rng.randint(0, 5))) + '\n')
             elif r < 0.45:
                 parts.append(rng.choice(kws) + rng.choice(['', '', 'x', '_', '1']))
             else:
                 parts.append(rng.choice(ALPHA + ['12', '1.5', '৩.১৪', '1.', '.5', '<=', '<<', '**', '&&', '||', '==', '!=', '>=', '>>']))
         texts.append(rng.choice(['', ' ', '\n']).join(parts))
+    for sp in ['\x00', '\u00a0', '\ufeff', '@', '\\', "'", '\r', '\t']:
+        texts += ['"a%sb" 1' % sp, '// a%sb\n1' % sp, '/* a%sb */ 1' % sp, 'x %s// c\n2' % sp, '"%s"' % sp, '"%s' % sp, '//%s' % sp, '/*%s*/' % sp, '1%s2' % sp, 'a%sb' % sp]
+    for tail in ['1.', '1.;', 'a.', '"s".', '1..', '/* x *', '/* x */', '/*', '/', '//', '"', '1.5.', '৫.', 'x = 1.']:
+        texts += [tail, 'y ' + tail, tail + '\n']
     mm, gd, acc = diff_front(env, texts)
     mism += mm
     nontriv = set()
